@@ -180,7 +180,7 @@ def c04(res, tier, seed):
 @check("C07")
 def c07(res, tier, seed):
     b = build_harness(PKG)
-    mc(res, b, "merge-te", BASE_TE, [1, 124, 31, 69, 112, 113], ["merge", "umerge", "cat"], D(tier, 2, 3), nobj=3, nest_at=18, nest_fields=[1])
+    mc(res, b, "merge-te", BASE_TE, [1, 124, 135, 31, 69, 112, 113], ["merge", "umerge", "cat"], D(tier, 2, 3), nobj=3, nest_at=18, nest_fields=[1])
     mc2(tier, res, b, "merge-t3", BASE_T3, [81, 31, 71, 112], ["merge", "umerge", "cat", "setu"], 2, nobj=3, nest_at=98, nest_fields=[1])
     finish(res, b, seed, tier, "mut=10,merge=4,umerge=3,cat=3,unmarshal=1,clone=1")
 
@@ -277,3 +277,68 @@ def c30(res, tier, seed):
     mc2(tier, res, b, "eq-t3", BASE_T3, [91, 92, 95, 98], ["equal", "clone", "rt"], 2, nobj=3, nest_at=98, nest_fields=[1])
     finish(res, b, seed, tier, "mut=10,equal=6,clone=3,rt=3,unmarshal=1")
     res.notes.append("agreement with protoreflect.Value.Equal and protocmp.Transform: see evidence key equal_variants (harness cross-check in every equal step)")
+
+
+# ============================================================================ C06: total decoding + validator
+MODULE_OF["C06"] = "dec"
+HARNESS_PKGS["C06"] = PKG
+LAZY_NODE = "opaque.lazy_tree.Node"
+
+
+def mc_decode(res, binary, label, base, alphabet, maxlen, limits, flavs=None):
+    schema = export_schema(binary, (base,))
+    tour = os.path.join(scratch(), "dec-%s.tour" % label)
+    r = tlc("MC_PbDecode", cfg({"Type": '"%s"' % base, "Alphabet": tlaset(alphabet), "MaxLen": maxlen, "Limits": tlaset(limits)},
+                               invariants=["LimitMonotone", "FirstFieldSplit"], emit="Emit"),
+            emit_to=tour, env={"SCHEMA": schema}, timeout=3000)
+    res.add_tlc(r, "%s: all byte strings <= %d over %d symbols for %s, recursion limits %s" % (label, maxlen, len(alphabet), base, limits))
+    lines = list(read_ndjson(tour))
+    for (tname, dyn) in (flavs or flavors(base)):
+        fp = tour + "." + tname.split(".")[0] + ("-dyn" if dyn else "")
+        with open(fp, "w") as fh:
+            for l in lines:
+                fh.write(json.dumps(dict(l, type=tname, dyn=dyn)) + "\n")
+        replay_tour(res, binary, "dec", fp, key=lambda e: [e["type"], e["dyn"], e["exp"]["err"], e["limit"], len(e["b"])])
+        os.remove(fp)
+    res.exhaustive = True
+
+
+@check("C06")
+def c06(res, tier, seed):
+    b = build_harness(PKG)
+    # single-byte tags of testeditions.TestAllTypes: 08 field 1 varint, 0a/0d wrong wire types, 10 field 2, 1a field 3 (wrong type),
+    # 72 field 14 string, 82/83/84 01: field 16 bytes / start group / end group, 92 01: field 18 message; lengths, payload, continuation
+    alpha = [0, 1, 2, 8, 10, 13, 15, 16, 26, 114, 127, 128, 130, 131, 132, 255]
+    mc_decode(res, b, "te", BASE_TE, alpha + ([146, 192] if tier != "quick" else []), 3 if tier == "quick" else 4, [0, 1, 2])
+    if tier != "quick":
+        # lazy tree node: field 1 int32 (08), 2 nested lazy message (12), 99 lazy (9a 06), wrong wire types for them
+        mc_decode(res, b, "lazy", LAZY_NODE, [0, 1, 2, 6, 8, 16, 18, 21, 128, 152, 154, 255], 4, [0, 1, 2, 3],
+                  flavs=[(LAZY_NODE, False), (LAZY_NODE, True), ("hybrid.lazy_tree.Node", False), ("lazy_tree.Node", False)])
+    n = 1500 if tier == "quick" else 60000
+    from vlib import drive_and_validate
+    schema = export_schema(b, ())
+    gen = os.path.join(scratch(), "dec-gen.ndjson"); tr = os.path.join(scratch(), "dec-trace.ndjson")
+    harness(b, ["gen", "dec", seed, n, gen]); harness(b, ["exec", "dec", gen, tr])
+    t0 = time.time()
+    total, bad = validate_trace("Trace_PbDecode", tr, shards=3 if tier == "quick" else 4, env={"SCHEMA": schema}, timeout=3000)
+    log("validated %d decode events in %.1fs: %d rejected" % (total, time.time() - t0, len(bad)))
+    events = list(read_ndjson(tr))
+    for i, ev in enumerate(events):
+        res.distinct.add(json.dumps([ev["type"], ev["dyn"], ev["out"].get("err"), ev["out"].get("val"), ev["limit"] > 0]))
+        if i % 499 == 0:
+            res.sample(json.dumps(ev)[:1200])
+    if bad:
+        rp = os.path.join(scratch(), "dec-repro.ndjson")
+        with open(rp, "w") as fh:
+            for i in bad:
+                fh.write(json.dumps({k: v for k, v in events[i].items() if k != "out"}) + "\n")
+        harness(b, ["exec", "dec", rp, rp + ".out"])
+        strip = lambda o: {k: v for k, v in (o or {}).items() if k != "stack"}
+        for i, ev2 in zip(bad, read_ndjson(rp + ".out")):
+            if strip(ev2.get("out")) != strip(events[i].get("out")):
+                raise vlib.Infra("decode event %d not reproducible" % i)
+            res.fail(dict(events[i], _module="dec", _trace="Trace_PbDecode"), "trace: PbDecodeCases rejects the recorded Unmarshal (reproduced)")
+    res.trace_events += total; res.evaluations += total; res.traces += 1
+    res.rule = ("tour: every byte string up to the bound over a schema-aware alphabet x recursion limits x lazy on/off, with the "
+                "specification's verdict and decoded content, replayed on all flavours (+ validator consistency); distinct = (flavour, "
+                "verdict, limit, length); driver: valid encodings + mutations + noise on 24 corpus types validated by Trace_PbDecode")
